@@ -183,80 +183,37 @@ func InstrMethodKey(instr ssa.CallInstruction) fn.Optional[string] {
 	return fn.None[string]()
 }
 
-// FnReadsFrom returns true if an instruction in fn reads from val.
+// FnReadsFrom returns true if an instruction in fn may read from val.
 //
-//gocyclo:ignore
+// This is an over-approximation: it returns true whenever val is an operand of some instruction of fn. Any operand
+// position can read the value (a load, an argument of a call, an element of a composite operation, the base of an
+// address computation that is later loaded...), and missing one makes on-demand summarization skip a function that
+// the eager mode summarizes.
 func FnReadsFrom(fn *ssa.Function, val ssa.Value) bool {
-	for _, blk := range fn.Blocks {
-		for _, instr := range blk.Instrs {
-			switch instr := instr.(type) {
-			case *ssa.UnOp:
-				if instr.X == val {
-					return true
-				}
-			case *ssa.BinOp:
-				if instr.X == val || instr.Y == val {
-					return true
-				}
-			case *ssa.Store:
-				// Special store
-				switch addr := instr.Addr.(type) {
-				case *ssa.FieldAddr:
-					if addr.X == val {
-						return true
-					}
-				}
-
-				if instr.Val == val {
-					return true
-				}
-			case *ssa.MapUpdate:
-				if instr.Value == val {
-					return true
-				}
-			case *ssa.Send:
-				if instr.X == val {
-					return true
-				}
-			case *ssa.Field:
-				if instr.X == val {
-					return true
-				}
-			case *ssa.FieldAddr:
-				if instr.X == val {
-					return true
-				}
-			case *ssa.Convert:
-				if instr.X == val {
-					return true
-				}
-			}
-		}
-	}
-
-	return false
+	return fnHasOperand(fn, val)
 }
 
-// FnWritesTo returns true if an instruction in fn writes to val.
+// FnWritesTo returns true if an instruction in fn may write to val.
+//
+// This is an over-approximation: it returns true whenever val is an operand of some instruction of fn. The value can
+// be written directly (store, map update, send), through an address derived from it (a field or an element of val),
+// or by a callee that receives it.
 func FnWritesTo(fn *ssa.Function, val ssa.Value) bool {
+	return fnHasOperand(fn, val)
+}
+
+// fnHasOperand returns true if val is an operand of some instruction in fn.
+func fnHasOperand(fn *ssa.Function, val ssa.Value) bool {
+	var operands []*ssa.Value
 	for _, blk := range fn.Blocks {
 		for _, instr := range blk.Instrs {
-			switch instr := instr.(type) {
-			case *ssa.Store:
-				if instr.Addr == val {
-					return true
-				}
-			case *ssa.MapUpdate:
-				if instr.Map == val {
-					return true
-				}
-			case *ssa.Send:
-				if instr.Chan == val {
+			operands = instr.Operands(operands[:0])
+			for _, operand := range operands {
+				if *operand == val {
 					return true
 				}
 			}
 		}
 	}
-
 	return false
 }
